@@ -34,6 +34,12 @@ class HarnessError(Exception):
     """The scenario is not executable (not a property violation)."""
 
 
+class SimInterrupt(KeyboardInterrupt):
+    """An exception arriving from OUTSIDE while the code under test waits: Ctrl-C, or an application signal handler that
+    raises (fault kind `interrupt`).  It lands only where the process really waits (select / poll / recv / sleep with
+    nothing ready): that is where a process spends its time, and the only place where code can promise anything."""
+
+
 class SimThread(object):
     __slots__ = ('name', 'ev', 'state', 'cond', 'deadline', 'real', 'exc')
 
@@ -97,6 +103,11 @@ class World(object):
         # interrupted by a signal `delay_us` after it started (pre-PEP-475 semantics: InterruptedError reaches the caller)
         self.eintr_plan = {int(n): int(d) for n, d in (scenario.get('eintr') or [])}
         self.wait_calls = 0
+        # interrupt plan: [[n, delay_us], ...]: the n-th wait of the main thread (select / poll / recv / sleep) is
+        # abandoned `delay_us` after it started by an exception from outside (SimInterrupt)
+        self.intr_plan = {int(n): int(d) for n, d in (scenario.get('intr') or [])}
+        self.intr_calls = 0
+        self.intr_armed = False    # interrupts land only inside operations of the driver on the object under test
 
     # ---------------------------------------------------------------- stats
     def fault(self, kind, n=1):
@@ -120,6 +131,9 @@ class World(object):
     def wait_interruptible(self, cond, timeout_us, what):
         """block() for select/poll of the code under test; raises InterruptedError(EINTR) when the scenario's
         EINTR plan places a signal inside this wait and nothing became ready before it."""
+        if self.intr_plan and self.intr_armed and self.current is self.main:
+            if self._interrupt_here(cond, timeout_us, what):
+                return True
         self.wait_calls += 1
         d = self.eintr_plan.get(self.wait_calls)
         if d is None or (timeout_us is not None and d >= timeout_us):
@@ -129,6 +143,26 @@ class World(object):
         self.fault('eintr')
         self.log('eintr', (what, d), None)
         raise InterruptedError(errno.EINTR, 'Interrupted system call')
+
+    def _interrupt_here(self, cond, timeout_us, what):
+        """True: the wait ended normally before the interrupt was due (nothing more to do).  False: no interrupt
+        is planned for this wait.  Raises SimInterrupt otherwise."""
+        self.intr_calls += 1
+        d = self.intr_plan.get(self.intr_calls)
+        if d is None or (timeout_us is not None and d >= timeout_us):
+            return False
+        if self.block(cond, d, what):
+            return True
+        self.fault('interrupt')
+        self.log('interrupt', (what, d), None)
+        raise SimInterrupt('interrupted from outside in %s' % (what,))
+
+    def wait_plain(self, cond, timeout_us, what):
+        """block() for waits that take no EINTR (sleep, recv) but can be abandoned by an interrupt from outside."""
+        if self.intr_plan and self.intr_armed and self.current is self.main:
+            if self._interrupt_here(cond, timeout_us, what):
+                return True
+        return self.block(cond, timeout_us, what)
 
     # ----------------------------------------------------------------- time
     def time(self):
@@ -279,6 +313,9 @@ class World(object):
 
     def sleep(self, dt_us):
         self.block(lambda: False, dt_us, 'sleep')
+
+    def sleep_interruptible(self, dt_us):
+        self.wait_plain(lambda: False, dt_us, 'sleep')
 
     def _min_deadline(self):
         dl = None
